@@ -398,6 +398,8 @@ bool ManifestParser::ParseEdge(string* err) {
     if (new_end != edge->inputs_.end()) {
       edge->inputs_.erase(new_end, edge->inputs_.end());
       edge->order_only_deps_ -= order_only_removed;
+      // The edge no longer consumes its own output.
+      out->RemoveOutEdge(edge);
       if (!quiet_) {
         Warning("phony target '%s' names itself as an input; "
                 "ignoring [-w phonycycle=warn]",
